@@ -1,23 +1,14 @@
-"""Per-property configuration of ./check: theorem modules, engines (with case counts per tier),
-observation-key projection, and the texts that go into MANIFEST.json / evidence.
+"""Per-property configuration of ./check, loaded from tools/checks/<ID>.json:
+theorem modules (props), engines (case counts are totals per engine, split over shards; optional
+`keys` = observation keys compared for this property), and the texts for MANIFEST.json / evidence."""
+import glob
+import json
+import os
 
-Case counts are totals per engine (split over shards)."""
-
-CHECKS = {
-    "C02": {
-        "title": "Constant-product swap: exact price, exact fee split, no free money",
-        "props": ["WW.Props.C02"],
-        "engines": [
-            {"engine": "swapmath", "quick": 120000, "thorough": 3000000, "shards_quick": 4, "shards_thorough": 16},
-        ],
-        "technique": "Lean 4 proof of a closed form of the compute_swap replica (all u128 inputs, all valid fees) + differential correspondence of the replica against the real compute_swap via cfg hook",
-        "level_text": "Kernel-checked theorems over all (offer_reserve, ask_reserve, offer) in [1,2^128)^3 and all valid fee triples: never panics, Ok iff the spread fits 128 bits, gross identity, exact fee split, proceeds < reserve, there-and-back never profits. The model is tied to terraswap_pair::helpers::compute_swap by a bit-for-bit differential run (ok/err/panic and all five output fields).",
-        "level_note": "Trusted: Lean kernel (+propext, Classical.choice, Quot.sound), the hand-written replica (validated on 1.2e5 / 3e6 sampled inputs incl. boundary shapes), harness and check script. Decimal settings do not enter the constant-product arm.",
-        "design_ref": "5 / C02",
-        "rule": "inputs: 8 reserve/offer shapes (balanced, extreme ratios, near 2^128, tiny) x fee triples (zero, valid boundary-heavy, 5% possibly invalid); non-trivial = the real compute_swap returned Ok; distinct = distinct input lines",
-        "assumptions": ["default cargo features (no osmosis fee)"],
-    },
-}
+_D = os.path.join(os.path.dirname(os.path.abspath(__file__)), "checks")
+CHECKS = {}
+for _f in sorted(glob.glob(os.path.join(_D, "C*.json"))):
+    CHECKS[os.path.basename(_f)[:-5]] = json.load(open(_f))
 
 # reasons for properties not claimed yet (kept current; empty when everything is claimed)
 NOT_YET = {}
